@@ -219,6 +219,10 @@ template <class Mesh> void HistRun<Mesh>::run_batteries(R &r, const Snap &s, uin
     }
     if (!due) return;
     if (ctx.in({"C01", "C12"})) battery_c01(M, ctx, st, d);
+    if (ctx.is("C05")) battery_c05(M, ctx, st, d);
+    if (ctx.is("C08")) battery_c08(M, ctx, st, d);
+    if (ctx.in({"C09", "C12"})) battery_c09(M, ctx, st, d, no_set_ops);
+    if (ctx.is("C10")) battery_c10(M, ctx, st, d);
 }
 
 template <class Mesh> RunResult HistRun<Mesh>::run() {
